@@ -355,10 +355,19 @@ def enc_history(ops):
     return " ".join(t)
 
 
+class ModelBuilds(list):
+    """the model's builds of one history + the decidable guards the driver evaluated on it"""
+    guards = None
+
+
 def parse_model(line):
-    builds = []
+    builds = ModelBuilds()
     if line.startswith("model-error"):
         raise RuntimeError(line)
+    builds.guards = {}
+    if "#" in line:
+        line, g = line.split("#", 1)
+        builds.guards = {kv.split("=")[0]: kv.split("=")[1] == "1" for kv in g.split("#") if "=" in kv}
     for b in line.split(";") if line else []:
         ok, ex, st, ws = b.split("|")
         wsd = {}
